@@ -5,6 +5,7 @@
 import MW.Lemmas.Deepen5Crash
 import MW.Lemmas.Deepen5Mark
 import MW.Lemmas.Deepen5Step
+import MW.Lemmas.Deepen5Drain
 namespace MW.Lemmas.Deepen5
 open MW MW.Model.Ledger MW.Model.Persist MW.Spec.Persist MW.Spec.Chain MW.Spec.Books MW.Lemmas.Ledger
   MW.Lemmas.PersistOp MW.Lemmas.PersistFault MW.Lemmas.PersistCrash MW.Lemmas.Deepen3 MW.Lemmas.Deepen4
@@ -66,13 +67,17 @@ def StepOKW (cfg : Cfg) (G : Block) (k : SkelT) (ev : EvT) : Prop :=
       queued notification succeeds (a failing one changes nothing);
     * crash: Start succeeds;
     * removal step: the pending-side clause `PendOK` (for every chain the height table describes);
-    * drain: the iterations have finished the removal (totality of the loop in the relaxed state is not proved). -/
+    * drain: `PendOK`, and the worker's loop completes (no iteration fails; totality is proved for round 4's `Mid`
+      only) — trivially so when the iterations have already finished the removal. -/
 def guardRem (cfg : Cfg) (cr : Bool) (x : SysQ) (k : SkelT) (w : Wid) : EvT → Prop
   | .q .handle => (∀ b, x.queue.head? = some b → k.base.chain[b.height]? = some b) ∧
       (∀ b, x.queue = [b] → ((opBlock (envAt cfg.st k.base.chain) cfg.n b).run none x.P x.V).ok = true)
   | .q .crash => cr = true → (Model.Persist.crash (envAt cfg.st k.base.chain) cfg.n x.P).ok = true
   | .removeStep _ => PendGuard x.P (addrsOf k.base.ks w)
-  | .removeDrain _ => removeDone x.P w = true
+  | .removeDrain _ => PendGuard x.P (addrsOf k.base.ks w) ∧
+      (removeDone x.P w = false →
+        (removeLoop cfg.limit cfg.n (envAt cfg.st k.base.chain) w (addrsOf k.base.ks w) (x.P.led.credits.length + 1)
+          x.P x.V).isSome = true)
   | _ => True
 
 def guardEvW (cfg : Cfg) (cr : Bool) (x : SysQ) (k : SkelT) (ev : EvT) : Prop :=
@@ -177,17 +182,10 @@ theorem JTW_step_rem {cfg : Cfg} {G : Block} (E : StaticOK cfg.st G) (cr : Bool)
     have hw : w' = w := hok
     subst hw
     have hq := stepT_queue cfg cr x (.removeDrain w')
-    have hnd : removeDone x.P w' = true := hg
-    have h1 : stepT cfg cr x (.removeDrain w') = x := by
-      simp only [stepT, hnd, Bool.not_true, Bool.and_false, Bool.false_eq_true, if_false]
     refine ⟨hshort, by rw [hq]; exact hqs, hcn', ?_⟩
-    rw [h1]
     unfold PhaseT
-    show JQ cfg.st G x { k.base with ks := AMap.erase k.base.ks w' }
-    rcases hph' with hM | hD
-    · have hf := hM.flagged
-      unfold removeDone at hnd; rw [hf] at hnd; cases hnd
-    · exact hD.jq
+    show JQ cfg.st G (stepT cfg cr x (.removeDrain w')) { k.base with ks := AMap.erase k.base.ks w' }
+    exact JRW_removeDrain cr hph' hg.1 hg.2
 
 /-- **every event keeps `JTW`** -/
 theorem JTW_step {cfg : Cfg} {G : Block} (E : StaticOK cfg.st G) (hG : G.txs = []) (hb : cfg.batch > 0)
